@@ -26,7 +26,8 @@ import (
 func Spec() *run.Spec {
 	return &run.Spec{
 		ID: "C01", Level: "exploration",
-		Rule: "one case = one random history of 10–60 steps over a pool of ≤ 8 live meshes (operations: the shared table internal/c01/ops — every deriving Mesh method, " +
+		Rule: "Since round 9 the OBJ writer also runs on live meshes outside its own precondition (material runs that do not cover every face); its errors and panics are not verdicts, changed live meshes are. " +
+			"one case = one random history of 10–60 steps over a pool of ≤ 8 live meshes (operations: the shared table internal/c01/ops — every deriving Mesh method, " +
 			"every meshops/gausops transformer in function/Transformer/node form, repeat.Mesh, primitives as sources, scans, spatial helpers and the four format writers); " +
 			"40 % of the steps derive two or three times from one base (same op with other arguments, or another op; the first derivation is repeated after the second so both orders occur), " +
 			"bases are preferentially results of Append; after every single operation all live meshes are re-read and compared with their recorded fingerprint. " +
